@@ -44,6 +44,11 @@ def classify(prop, sig):
         if cb.startswith("after a one-off EIO at write:write:refs/cids#0") and \
                 what == "a shared reference list gained a line for the interrupted pid without its pid reference":
             return "C10-F2"
+    if prop == "C13" and sig.get("site", "").startswith("probe:stat:") and sig.get("mode") == "one-off" and sig.get("errno") == "EIO":
+        if sig.get("what") in ("another pid's object or metadata changed", "another pid's references changed",
+                               "call reported success although its effect was not (wholly) achieved",
+                               "after the failed call the pid's earlier binding is not intact"):
+            return "C13-P3"
     if prop == "C13":
         site = sig.get("site", "")
         refs_site = ":refs/cids" in site or ":refs/pids" in site
